@@ -9,7 +9,7 @@
    rings too — members sharing a token come in the ring's stable (insertion) order.
    [nts_keys_ok s]: an NTS map has one entry per datacenter (it is a HashMap). *)
 From SV Require Import Base.Prelude Model.Tablets Model.TabletSets Proofs.TabletSets_proofs Model.Ring Model.Shard Model.Replicas Proofs.Ring_proofs Proofs.Replicas_proofs.
-From Coq Require Import Permutation.
+From Coq Require Import Permutation Sorted.
 Open Scope Z_scope.
 
 (* TokenRing::new: the stored ring is the sorted entry list; distinct tokens => strictly sorted *)
@@ -158,6 +158,16 @@ Theorem C04_placement_sound : forall spec observed,
   placement_ok spec observed = true <->
   NoDup observed /\ NoDup spec /\ (forall x, In x observed <-> In x spec).
 Proof. exact (fun spec observed => same_set_spec observed spec). Qed.
+
+(* what the ring-order predicate means: the ordered view names exactly the iterated nodes that
+   own a token, each once, in the order in which the clockwise walk from the token (C04_ring_range)
+   first reaches them.  [first_pos x w] = index of the first occurrence of x in w. *)
+Theorem C04_ordered_ok_sound : forall (g : ring N) t iter ordered,
+  ordered_ok g t iter ordered = true <->
+  NoDup ordered /\
+  (forall x, In x ordered <-> In x iter /\ In x (ring_range g t)) /\
+  StronglySorted (fun x y => (first_pos x (ring_range g t) < first_pos y (ring_range g t))%nat) ordered.
+Proof. exact ordered_ok_spec. Qed.
 
 Theorem C04_placement_model : forall dcf rackf (g : ring N) pre t s dc,
   sorted_weak g ->
@@ -400,6 +410,14 @@ Example C04_ex_views_model :
   precomputed_ok (rs_iter ex_dcf ex_rackf ex_g [] 160 (replicas_for ex_dcf ex_rackf ex_g [] 160 s None)) iter = true.
 Proof. repeat split; vm_compute; reflexivity. Qed.
 
+(* first_pos, and the ring-order predicate on a walk that reaches node 3 before node 1 *)
+Example C04_ex_first_pos :
+  map (fun x => first_pos x [1; 3; 2; 3]%N) [1; 3; 2; 9]%N = [0; 1; 2; 4]%nat /\
+  ordered_ok [(10, 3%N); (20, 1%N); (30, 3%N)] 5 [1; 3]%N [3; 1]%N = true /\
+  ordered_ok [(10, 3%N); (20, 1%N); (30, 3%N)] 5 [1; 3]%N [1; 3]%N = false /\
+  ordered_ok [(10, 3%N); (20, 1%N); (30, 3%N)] 15 [1; 3]%N [1; 3]%N = true.
+Proof. repeat split; vm_compute; reflexivity. Qed.
+
 Example C04_ex_ops :
   let pre := [Simple 2] in
   let s := replicas_for ex_dcf ex_rackf ex_g pre 160 (NTS [(1%N, 3%nat); (2%N, 3%nat)]) None in
@@ -450,5 +468,6 @@ Print Assumptions C04_size_hint.
 Print Assumptions C04_size_hint_no_underflow.
 Print Assumptions C04_size_hint_ordered.
 Print Assumptions C04_placement_sound.
+Print Assumptions C04_ordered_ok_sound.
 Print Assumptions C04_placement_model.
 Print Assumptions C04_ordered_model.
